@@ -7,6 +7,7 @@ import (
 	"os"
 	"strings"
 
+	"github.com/formancehq/ledger/verifh/lx"
 	"github.com/formancehq/ledger/verifh/pimport"
 	"github.com/formancehq/ledger/verifh/sched"
 )
@@ -57,6 +58,16 @@ func ReplayConc(path string) int {
 			fmt.Printf("replay: %s: %s\n", v[0], v[1])
 		}
 		return 1
+	}
+	var sq struct {
+		Property string `json:"property"`
+		Replay   struct {
+			Ledgers []lx.LedgerSpec `json:"ledgers"`
+			Ops     []lx.Op         `json:"ops"`
+		} `json:"replay"`
+	}
+	if err := json.Unmarshal(b, &sq); err == nil && len(sq.Replay.Ledgers) > 0 && len(sq.Replay.Ops) > 0 {
+		return ReplaySeq(sq.Property, sq.Replay.Ledgers, sq.Replay.Ops)
 	}
 	var rr struct {
 		Replay struct {
@@ -159,4 +170,40 @@ func oneLineSQL(s string) string {
 		s = s[:150] + "…"
 	}
 	return s
+}
+
+// ReplaySeq re-executes one recorded operation sequence of a K1 check (a plain loop over the
+// operations on a freshly booted database, then the check's oracle, from the live process and
+// — when the check does so — from a freshly attached one) and prints what the oracle reports
+// under the check's signature filter.
+func ReplaySeq(id string, ledgers []lx.LedgerSpec, ops []lx.Op) int {
+	sc, ok := seqSets[id]
+	if !ok {
+		fmt.Println("ENGINE-ERROR no sequence check registered for", id)
+		return 2
+	}
+	e := &lx.SeqExplorer{Ledgers: ledgers, Alphabet: ops, Depth: len(ops), Restart: sc.restart, Sigs: sc.sigs, Check: sc.check}
+	rep, err := e.RunPath(context.Background(), ops)
+	if err != nil {
+		fmt.Println("ENGINE-ERROR", err)
+		return 2
+	}
+	n := 0
+	for _, m := range rep.Items {
+		mark := "observation"
+		for _, p := range sc.sigs {
+			if strings.HasPrefix(m.Sig, p) || strings.HasPrefix(m.Sig, "restart:"+p) {
+				mark = "replay"
+			}
+		}
+		if mark == "replay" {
+			n++
+		}
+		fmt.Printf("%s: %s:%s: %s\n", mark, id, m.Sig, m.What)
+	}
+	if n == 0 {
+		fmt.Println("replay: oracle silent")
+		return 0
+	}
+	return 1
 }
